@@ -70,6 +70,22 @@ func judge(v sysex.Manufacturer, corrupt bool) {
 		report("parse:rejects-own-output:"+kind, v, b, "Parse fails on the bytes built from the value: "+err.Error())
 		return
 	}
+	// the bytes handed out must stay what they were when another message is
+	// built and parsed afterwards (no shared scratch buffer)
+	keep := append([]byte(nil), b...)
+	other := v
+	other.Address[2] ^= 0x15
+	other.DeviceID ^= 1
+	ob := other.SysEx()
+	_, _ = sysex.Parse(ob)
+	if !bytes.Equal(b, keep) {
+		report("build:aliasing:"+kind, v, keep, "the bytes returned by SysEx() changed when the next message was built: now "+engine.Hex(b))
+		return
+	}
+	if p2, err2 := sysex.Parse(b); err2 != nil || p2.Address != v.Address || p2.DeviceID != v.DeviceID {
+		report("build:aliasing:"+kind, v, keep, "a message built earlier no longer parses to its value after another one was built")
+		return
+	}
 	same := p.ManufacturerID == v.ManufacturerID && p.DeviceID == v.DeviceID && p.ModelID == v.ModelID && p.InfoRequest == v.InfoRequest && p.Address == v.Address
 	if v.InfoRequest {
 		same = same && p.NumReqBytes == v.NumReqBytes
